@@ -1,0 +1,54 @@
+//go:build verif
+
+package bcl
+
+import "io"
+
+// Verification hooks, active only with the "verif" build tag. Every hook is a one-line call placed after the state change
+// it reports; the sink may block (it doubles as a scheduler gate for steering goroutine interleavings).
+
+// VerifEvent is one observation at a linearization point.
+type VerifEvent struct {
+	G    string // role: R reader goroutine, L lexer goroutine, P parser goroutine, C caller, V virtual machine
+	Kind string
+	A, B int
+	Inst any   // identifies the call (the input channel / the Prog), so that concurrent calls can be told apart
+	V    []any // typed payload: a copy of the operand stack for VM steps
+	S    string
+}
+
+// VerifSink receives the events; nil = off. It must be safe for concurrent use and is set before any call is made.
+var VerifSink func(VerifEvent)
+
+func verifEv(g, kind string, a, b int, inst any) {
+	if s := VerifSink; s != nil {
+		s(VerifEvent{G: g, Kind: kind, A: a, B: b, Inst: inst})
+	}
+}
+
+func verifVM(vm *vm) {
+	if s := VerifSink; s != nil {
+		st := make([]any, vm.tos)
+		for i := range st {
+			st[i] = vm.stack[i]
+		}
+		s(VerifEvent{G: "V", Kind: "step", A: vm.pc, B: vm.blockTos, Inst: vm.prog, V: st})
+	}
+}
+
+func verifErrClass(err error) int {
+	switch {
+	case err == nil:
+		return 0
+	case err == io.EOF:
+		return 2
+	}
+	return 1
+}
+
+func verifB(b bool) int {
+	if b {
+		return 1
+	}
+	return 0
+}
